@@ -1,13 +1,13 @@
 package storesim
 
 import (
-	"strings"
 	"context"
 	"errors"
 	"fmt"
 	"io"
 	"math"
 	"sort"
+	"strings"
 	"time"
 
 	"verif/harness/model"
